@@ -179,7 +179,15 @@ func (p *IdP) token(w http.ResponseWriter, r *http.Request) {
 	if l.Issuer != "" {
 		claims["iss"] = l.Issuer
 	}
-	if l.Audience != "" {
+	switch l.Audience {
+	case "":
+	case "<absent>":
+		delete(claims, "aud") // no audience claim at all
+	case "<empty-list>":
+		claims["aud"] = []string{}
+	case "<list-with-client>":
+		claims["aud"] = []string{"some-other-client", p.ClientID} // legal: the client is among several audiences
+	default:
 		claims["aud"] = l.Audience
 	}
 	if l.ExpiredID {
